@@ -498,3 +498,29 @@ func (v *Verifier) isTrustedRepoFunc(fn *ssa.Function) bool {
 	_, ok := v.repoRule(fn)
 	return ok
 }
+
+// lookupGlobalVar resolves a package-level variable by short name in the function's package or its repo imports.
+func (v *Verifier) lookupGlobalVar(fn *ssa.Function, name string) string {
+	try := func(p *types.Package) string {
+		if p == nil {
+			return ""
+		}
+		if o, ok := p.Scope().Lookup(name).(*types.Var); ok && o != nil {
+			return p.Path() + "." + name
+		}
+		return ""
+	}
+	if fn != nil && fn.Pkg != nil {
+		if r := try(fn.Pkg.Pkg); r != "" {
+			return r
+		}
+		for _, imp := range fn.Pkg.Pkg.Imports() {
+			if strings.HasPrefix(imp.Path(), repoMod) {
+				if r := try(imp); r != "" {
+					return r
+				}
+			}
+		}
+	}
+	return ""
+}
